@@ -682,9 +682,10 @@ func (r *rewriter) rewriteRangeChan(n *ast.RangeStmt) ast.Stmt {
 
 // for k, v := range m { body } => for _, e := range simrt.SortedEntries(m) { k, v := e.K, e.V; body }
 func (r *rewriter) rewriteRangeMap(n *ast.RangeStmt, m *types.Map) ast.Stmt {
-	b, ok := m.Key().Underlying().(*types.Basic)
-	if !ok || b.Info()&(types.IsOrdered) == 0 {
-		fail(r.fset, n.Pos(), "range over a map whose key type %s is not ordered: iteration order cannot be made deterministic", m.Key())
+	fn := "SortedEntries"
+	if b, ok := m.Key().Underlying().(*types.Basic); !ok || b.Info()&(types.IsOrdered) == 0 {
+		// no order on the key type itself (a type parameter, a struct): ordered by printed form
+		fn = "SortedEntriesAny"
 	}
 	en := r.name("e")
 	var lhs, rhs []ast.Expr
@@ -717,7 +718,7 @@ func (r *rewriter) rewriteRangeMap(n *ast.RangeStmt, m *types.Map) ast.Stmt {
 		val = ast.NewIdent(en)
 	}
 	body = append(body, n.Body.List...)
-	rs := &ast.RangeStmt{Key: key, Value: val, Tok: token.DEFINE, X: r.simrtCall("SortedEntries", n.X), Body: &ast.BlockStmt{List: body}}
+	rs := &ast.RangeStmt{Key: key, Value: val, Tok: token.DEFINE, X: r.simrtCall(fn, n.X), Body: &ast.BlockStmt{List: body}}
 	if val == nil {
 		rs.Key, rs.Tok = nil, token.ILLEGAL
 	}
